@@ -1004,7 +1004,8 @@ def _create_socks_endpoint(reactor, control_protocol, socks_config=None):
 
     socks_endpoint = None
     for p in list(unix_ports) + list(tcp_ports):  # prefer unix-ports
-        if socks_config and p != socks_config:
+        # socks_config is a whole SOCKSPort line and may carry options
+        if socks_config and p != socks_config.split()[0]:
             continue
         try:
             socks_endpoint = _endpoint_from_socksport_line(reactor, p)
